@@ -130,3 +130,238 @@ Proof.
       assert (Ekd : bltb k d = true) by (rewrite Neg, Edk; reflexivity).
       rewrite Ekd. cbn [andb negb]. rewrite andb_false_r. reflexivity.
 Qed.
+
+(* ================================================================================================ *)
+(* any number of pairwise non-nested skipped prefixes under prefix/                                   *)
+(* ================================================================================================ *)
+From Coq Require Import Sorted.
+
+Definition ble (a b : bytes) : Prop := bcmp a b <> Gt.
+
+Definition cnt (k : bytes) (l : list bytes) : nat := length (filter (fun x => bleb x k) l).
+
+Definition in_pairs (k : bytes) (l : list bytes) : bool :=
+  existsb (fun lh => bleb (fst lh) k && bltb k (snd lh)) (pairs l).
+
+Definition elt (a b : bytes) : bool := bltb (encode a 0) (encode b 0).
+
+Lemma cnt_insert k x l : cnt k (insert_by elt x l) = cnt k (x :: l).
+Proof.
+  unfold cnt. induction l as [|y l IH]; cbn [insert_by]; [reflexivity|].
+  destruct (elt y x); [|reflexivity]. cbn [filter] in *.
+  destruct (bleb y k); destruct (bleb x k); cbn [length] in *; rewrite IH; reflexivity.
+Qed.
+
+Lemma cnt_sort k l : cnt k (sort_by elt l) = cnt k l.
+Proof.
+  unfold sort_by. induction l as [|x l IH]; [reflexivity|]. cbn [fold_right]. rewrite cnt_insert.
+  unfold cnt in *. cbn [filter]. destruct (bleb x k); cbn [length]; rewrite IH; reflexivity.
+Qed.
+
+Lemma in_insert_elt x l y : In y (insert_by elt x l) <-> y = x \/ In y l.
+Proof.
+  induction l as [|z l IH]; cbn [insert_by]; [cbn; intuition congruence|].
+  destruct (elt z x); cbn [In]; [rewrite IH|]; intuition congruence.
+Qed.
+
+Lemma length_insert x l : length (insert_by elt x l) = S (length l).
+Proof. induction l as [|z l IH]; cbn [insert_by]; [reflexivity|]. destruct (elt z x); cbn [length]; [rewrite IH|]; reflexivity. Qed.
+
+Lemma length_sort l : length (sort_by elt l) = length l.
+Proof. unfold sort_by. induction l as [|x l IH]; [reflexivity|]. cbn [fold_right]. rewrite length_insert, IH. reflexivity. Qed.
+
+Lemma insert_sorted_b x l :
+  alpha x -> Forall alpha l -> StronglySorted ble l ->
+  StronglySorted ble (insert_by elt x l) /\ Forall alpha (insert_by elt x l).
+Proof.
+  intros Ax. induction l as [|y l IH]; intros Al Hs; cbn [insert_by].
+  - split; [constructor; constructor|constructor; [exact Ax|constructor]].
+  - inversion Al as [|? ? Ay Al']; subst. inversion Hs as [|? ? Hs' Hf]; subst. rewrite Forall_forall in Hf.
+    assert (Eelt : elt y x = bltb y x) by (unfold elt; apply enc_ltb; assumption). rewrite !Eelt.
+    destruct (bltb y x) eqn:E.
+    + destruct (IH Al' Hs') as (I1 & I2). split; [|constructor; assumption].
+      constructor; [exact I1|]. apply Forall_forall. intros z Hz. apply in_insert_elt in Hz as [->|Hz]; [|apply Hf; exact Hz].
+      unfold ble, bltb in *. destruct (bcmp y x); discriminate.
+    + assert (Hxy : ble x y).
+      { unfold ble, bltb in *. intros Hg. apply bcmp_gt_lt in Hg. rewrite Hg in E. discriminate. }
+      split; [|constructor; [exact Ax|exact Al]].
+      constructor; [exact Hs|]. constructor; [exact Hxy|].
+      apply Forall_forall. intros z Hz. unfold ble. eapply bcmp_le_trans; [exact Hxy|apply Hf; exact Hz].
+Qed.
+
+Lemma sort_sorted_b l : Forall alpha l -> StronglySorted ble (sort_by elt l) /\ Forall alpha (sort_by elt l).
+Proof.
+  unfold sort_by. induction l as [|x l IH]; intros Al; cbn [fold_right]; [split; constructor|].
+  inversion Al as [|? ? Ax Al']; subst. destruct (IH Al') as (I1 & I2). apply insert_sorted_b; assumption.
+Qed.
+
+Lemma list_ind2 {A} (P : list A -> Prop) :
+  P [] -> (forall a, P [a]) -> (forall a b t, P t -> P (a :: b :: t)) -> forall l, P l.
+Proof.
+  intros H0 H1 H2. assert (H : forall l, P l /\ forall a, P (a :: l)).
+  { induction l as [|x l [IH1 IH2]]; [split; [exact H0|exact H1]|]. split; [apply IH2|]. intros a. apply H2. exact IH1. }
+  intros l. apply H.
+Qed.
+
+Lemma bltb_negb_bleb x y : bltb x y = negb (bleb y x).
+Proof. unfold bltb, bleb. rewrite (bcmp_antisym x y). destruct (bcmp x y); reflexivity. Qed.
+
+Lemma cnt_zero_below k b t : (forall z, In z t -> ble b z) -> bleb b k = false -> cnt k t = 0%nat.
+Proof.
+  intros Hf Hb. unfold cnt. induction t as [|z t IH]; [reflexivity|]. cbn [filter].
+  assert (Hz : bleb z k = false).
+  { destruct (bleb z k) eqn:E; [|reflexivity]. exfalso.
+    assert (bleb b k = true); [|congruence]. unfold bleb in *.
+    pose proof (Hf z (or_introl eq_refl)) as H1. unfold ble in H1.
+    assert (H2 : bcmp z k <> Gt) by (destruct (bcmp z k); congruence).
+    pose proof (bcmp_le_trans _ _ _ H1 H2) as H3. destruct (bcmp b k); congruence. }
+  rewrite Hz. apply IH. intros w Hw. apply Hf. right; exact Hw.
+Qed.
+
+(* in a sorted list of even length, k lies in one of the consecutive pairs iff an odd number of elements is <= k *)
+Lemma in_pairs_odd k : forall l,
+  StronglySorted ble l -> Nat.even (length l) = true -> in_pairs k l = Nat.odd (cnt k l).
+Proof.
+  apply (list_ind2 (fun l => StronglySorted ble l -> Nat.even (length l) = true -> in_pairs k l = Nat.odd (cnt k l))).
+  - reflexivity.
+  - intros a _ H. discriminate.
+  - intros a b t IH Hs He.
+    inversion Hs as [|? ? Hs1 Hf1]; subst. inversion Hs1 as [|? ? Hs2 Hf2]; subst.
+    rewrite Forall_forall in Hf1, Hf2.
+    specialize (IH Hs2). cbn [length Nat.even] in He. specialize (IH He).
+    unfold in_pairs in *. cbn [pairs existsb fst snd]. rewrite IH.
+    assert (Hc : forall x y, cnt k (x :: y :: t) = ((if bleb x k then 1 else 0) + (if bleb y k then 1 else 0) + cnt k t)%nat).
+    { intros x y. unfold cnt. cbn [filter]. destruct (bleb x k); destruct (bleb y k); reflexivity. }
+    rewrite Hc.
+    destruct (bleb b k) eqn:Eb.
+    + (* k >= b: both counted, first pair misses *)
+      assert (Ea : bleb a k = true).
+      { unfold bleb in *. pose proof (Hf1 b (or_introl eq_refl)) as H1. unfold ble in H1.
+        assert (H2 : bcmp b k <> Gt) by (destruct (bcmp b k); congruence).
+        pose proof (bcmp_le_trans _ _ _ H1 H2) as H3. destruct (bcmp a k); congruence. }
+      rewrite Ea, bltb_negb_bleb, Eb. cbn [negb andb orb Nat.add]. rewrite Nat.odd_succ, Nat.even_succ. reflexivity.
+    + rewrite (cnt_zero_below k b t Hf2 Eb). rewrite bltb_negb_bleb, Eb. cbn [negb].
+      destruct (bleb a k); reflexivity.
+Qed.
+
+(* counting the borders of a list of prefixes *)
+Definition borders_of (qs : list bytes) : list bytes := flat_map (fun q => [q ++ [47]; q ++ [48]]) qs.
+
+Fixpoint xor_all (bs : list bool) : bool := match bs with [] => false | b :: t => xorb b (xor_all t) end.
+
+Lemma cnt_borders k qs :
+  Nat.odd (cnt k (borders_of qs)) = xor_all (map (fun q => bleb (q ++ [47]) k && bltb k (q ++ [48])) qs).
+Proof.
+  induction qs as [|q qs IH]; [reflexivity|].
+  cbn [borders_of flat_map app map xor_all]. fold (borders_of qs). rewrite <- IH.
+  assert (Hc : forall x y t, cnt k (x :: y :: t) = ((if bleb x k then 1 else 0) + (if bleb y k then 1 else 0) + cnt k t)%nat).
+  { intros x y t. unfold cnt. cbn [filter]. destruct (bleb x k); destruct (bleb y k); reflexivity. }
+  rewrite Hc.
+  assert (Hlt : bcmp (q ++ [47]) (q ++ [48]) = Lt) by (rewrite bcmp_app_same; reflexivity).
+  rewrite bltb_negb_bleb.
+  destruct (bleb (q ++ [48]) k) eqn:E2.
+  - assert (E1 : bleb (q ++ [47]) k = true).
+    { unfold bleb in *. assert (H2 : bcmp (q ++ [48]) k <> Gt) by (destruct (bcmp (q ++ [48]) k); congruence).
+      assert (H1 : bcmp (q ++ [47]) (q ++ [48]) <> Gt) by congruence.
+      pose proof (bcmp_le_trans _ _ _ H1 H2). destruct (bcmp (q ++ [47]) k); congruence. }
+    rewrite E1. cbn [negb andb Nat.add]. rewrite Nat.odd_succ, Nat.even_succ. destruct (Nat.odd _); reflexivity.
+  - destruct (bleb (q ++ [47]) k); cbn [negb andb Nat.add].
+    + rewrite Nat.odd_succ. rewrite <- Nat.negb_odd. destruct (Nat.odd _); reflexivity.
+    + destruct (Nat.odd _); reflexivity.
+Qed.
+
+(* prefixes of one key are comparable *)
+Lemma prefix_comparable a : forall b k,
+  has_prefix a k = true -> has_prefix b k = true -> has_prefix a b = true \/ has_prefix b a = true.
+Proof.
+  induction a as [|x a IH]; intros b k Ha Hb; [left; reflexivity|].
+  destruct b as [|y b]; [right; reflexivity|]. destruct k as [|z k]; [discriminate|].
+  cbn [has_prefix] in *. apply andb_true_iff in Ha as [E1 Ha]. apply andb_true_iff in Hb as [E2 Hb].
+  apply N.eqb_eq in E1. apply N.eqb_eq in E2. subst. rewrite N.eqb_refl. cbn [andb]. eapply IH; eauto.
+Qed.
+
+Lemma prefix_trans a : forall b k, has_prefix a b = true -> has_prefix b k = true -> has_prefix a k = true.
+Proof.
+  induction a as [|x a IH]; intros b k Ha Hb; [reflexivity|].
+  destruct b as [|y b]; [discriminate|]. destruct k as [|z k]; [discriminate|].
+  cbn [has_prefix] in *. apply andb_true_iff in Ha as [E1 Ha]. apply andb_true_iff in Hb as [E2 Hb].
+  apply N.eqb_eq in E1. apply N.eqb_eq in E2. subst. rewrite N.eqb_refl. cbn [andb]. eapply IH; eauto.
+Qed.
+
+(* with at most one true among bs, and each implying b0: b0 xor (xor of bs) = b0 && none of bs *)
+Lemma xor_all_atmost1 (bs : list bool) :
+  ForallOrdPairs (fun x y => x && y = false) bs -> xor_all bs = existsb (fun b => b) bs.
+Proof.
+  induction 1 as [|b bs Hf Hp IH]; [reflexivity|]. cbn [xor_all existsb]. rewrite IH.
+  destruct b; [|destruct (existsb (fun b => b) bs); reflexivity]. cbn [xorb orb].
+  assert (existsb (fun b => b) bs = false); [|rewrite H; reflexivity].
+  clear -Hf. induction bs as [|c bs IH]; [reflexivity|]. inversion Hf as [|? ? Hc Hf']; subst. cbn [andb] in Hc. subst c.
+  cbn [existsb orb]. apply IH. exact Hf'.
+Qed.
+
+Lemma with_slash_noslash p : last_is slash p = false -> with_slash p = p ++ [47].
+Proof. intros H. unfold with_slash. rewrite H. reflexivity. Qed.
+
+Lemma pairwise_unrelated_pairs sk k :
+  Forall (fun s => last_is slash s = false) sk -> pairwise_unrelated sk = true ->
+  ForallOrdPairs (fun x y => x && y = false) (map (fun s => has_prefix (s ++ [47]) k) sk).
+Proof.
+  induction sk as [|s sk IH]; intros Hl Hp; cbn [map]; [constructor|].
+  inversion Hl as [|? ? Hs Hl']; subst. cbn [pairwise_unrelated] in Hp. apply andb_true_iff in Hp as [Hp1 Hp2].
+  constructor; [|apply IH; assumption].
+  apply Forall_forall. intros y Hy. apply in_map_iff in Hy as (u & <- & Hu).
+  rewrite forallb_forall in Hp1. specialize (Hp1 u Hu). rewrite Forall_forall in Hl'. specialize (Hl' u Hu).
+  rewrite (with_slash_noslash s Hs), (with_slash_noslash u Hl') in Hp1.
+  apply andb_true_iff in Hp1 as [N1 N2]. apply negb_true_iff in N1. apply negb_true_iff in N2.
+  destruct (has_prefix (s ++ [47]) k) eqn:E1; [|reflexivity].
+  destruct (has_prefix (u ++ [47]) k) eqn:E2; [|reflexivity].
+  destruct (prefix_comparable _ _ _ E1 E2); congruence.
+Qed.
+
+(* C07_borders: for every configuration whose skipped prefixes are under prefix/ and pairwise non-nested, the
+   border pairs cover exactly the keys in charge *)
+Theorem borders_general p sk k :
+  alpha p -> Forall alpha sk -> alpha k -> last_is slash p = false ->
+  Forall (fun s => last_is slash s = false) sk -> good_config p sk = true ->
+  existsb (fun lh => bleb (fst lh) k && bltb k (snd lh)) (ranges_of p sk) = in_charge p sk k.
+Proof.
+  intros Ap Ask Ak Hlp Hls Hg. unfold good_config in Hg. apply andb_true_iff in Hg as [Hunder Hpair].
+  (* the border list *)
+  assert (Eb : compact_borders p sk = sort_by elt (borders_of (p :: sk))).
+  { unfold compact_borders. f_equal. cbv zeta.
+    assert (H : forall qs, Forall (fun s => last_is slash s = false) qs ->
+              flat_map (fun q => [with_slash q; prefix_end (with_slash q)]) qs = borders_of qs).
+    { induction qs as [|q qs IH]; intros Hq; [reflexivity|]. inversion Hq as [|? ? H1 H2]; subst.
+      cbn [flat_map borders_of]. rewrite (with_slash_noslash q H1), prefix_end_slash, (IH H2). reflexivity. }
+    apply H. constructor; assumption. }
+  assert (Aall : Forall alpha (borders_of (p :: sk))).
+  { assert (H : forall qs, Forall alpha qs -> Forall alpha (borders_of qs)).
+    { induction qs as [|q qs IH]; intros Hq; [constructor|]. inversion Hq as [|? ? H1 H2]; subst.
+      cbn [borders_of flat_map app]. constructor; [apply alpha_app; split; [exact H1|exact alpha_47]|].
+      constructor; [apply alpha_app; split; [exact H1|exact alpha_48]|apply IH; exact H2]. }
+    apply H. constructor; assumption. }
+  destruct (sort_sorted_b _ Aall) as (Hsorted & _).
+  assert (Heven : Nat.even (length (sort_by elt (borders_of (p :: sk)))) = true).
+  { rewrite length_sort. clear. generalize (p :: sk). induction l as [|q qs IH]; [reflexivity|]. cbn [borders_of flat_map app length]. exact IH. }
+  unfold ranges_of. rewrite Eb. fold (in_pairs k (sort_by elt (borders_of (p :: sk)))).
+  rewrite (in_pairs_odd k _ Hsorted Heven), cnt_sort, cnt_borders. cbn [map xor_all].
+  (* back to prefixes *)
+  rewrite <- (slash_range p k Ap Ak).
+  assert (Emap : map (fun q => bleb (q ++ [47]) k && bltb k (q ++ [48])) sk = map (fun s => has_prefix (s ++ [47]) k) sk).
+  { apply map_ext_in. intros s Hs. symmetry. apply slash_range; [|exact Ak]. rewrite Forall_forall in Ask. apply Ask; exact Hs. }
+  rewrite Emap, (xor_all_atmost1 _ (pairwise_unrelated_pairs sk k Hls Hpair)).
+  unfold in_charge. rewrite (with_slash_noslash p Hlp).
+  assert (Eex : existsb (fun b => b) (map (fun s => has_prefix (s ++ [47]) k) sk) = existsb (fun s => has_prefix (with_slash s) k) sk).
+  { clear -Hls. induction sk as [|s sk IH]; [reflexivity|]. inversion Hls as [|? ? H1 H2]; subst.
+    cbn [map existsb]. rewrite (with_slash_noslash s H1), (IH H2). reflexivity. }
+  rewrite Eex.
+  destruct (has_prefix (p ++ [47]) k) eqn:Ep; cbn [xorb andb].
+  - destruct (existsb _ sk); reflexivity.
+  - (* outside prefix/: outside every skipped prefix, which all lie under prefix/ *)
+    destruct (existsb (fun s => has_prefix (with_slash s) k) sk) eqn:Ee; [|reflexivity]. exfalso.
+    apply existsb_exists in Ee as (s & Hs & Hk). rewrite forallb_forall in Hunder. specialize (Hunder s Hs).
+    rewrite (with_slash_noslash p Hlp) in Hunder. rewrite Forall_forall in Hls. rewrite (with_slash_noslash s (Hls s Hs)) in Hk.
+    assert (Hps : has_prefix (p ++ [47]) (s ++ [47]) = true).
+    { apply has_prefix_spec in Hunder as (t & ->). rewrite <- app_assoc. apply has_prefix_app. }
+    rewrite (prefix_trans _ _ _ Hps Hk) in Ep. discriminate.
+Qed.
